@@ -672,6 +672,24 @@ STR_VALS = ['', 'a', 'b', 'ab', 'ba', 'abc', 'abcd', 'abcde', 'bbbbb', 'c']
 SHAPES = [[1], [2], [3], [4], [5], [6], [2, 2], [2, 3], [3, 2], [1, 3]]
 
 
+BIG_INTS = [2 ** 53, 2 ** 53 + 1, 2 ** 53 + 2, 2 ** 60 + 1, 2 ** 60 + 2, 2 ** 60 + 3, -(2 ** 53) - 1]
+
+
+def sanitize(datasets, direct):
+    """the float-representability limit: an int64 column compared directly with a float64 column is compared by numpy in
+    float64 (np.int64(2**53+1) == np.float64(2**53) is True).  Such pairs are kept out of the generated cases: a float that is
+    the rounded image of an integer of the partner column without being equal to it is replaced by 0.5."""
+    for (a, x), (b, y) in direct:
+        for (d1, c1), (d2, c2) in (((a, x), (b, y)), ((b, y), (a, x))):
+            ci, cf = datasets[d1]['cols'][c1], datasets[d2]['cols'][c2]
+            if ci['dtype'][0] == 'i' and cf['dtype'][0] == 'f':
+                blurred = set(float(v) for v in ci['values'] if abs(v) > 2 ** 53) - set(float(v) for v in ci['values'] if float(v) == v and False)
+                ints = set(ci['values'])
+                bad = set(f for f in cf['values'] if f in blurred and any(float(v) == f and v != f for v in ints))
+                if bad:
+                    cf['values'] = [0.5 if f in bad else f for f in cf['values']]
+
+
 def rand_view(rng, shape):
     size = int(np.prod(shape))
     if len(shape) == 1:
@@ -702,6 +720,7 @@ def rand_view(rng, shape):
 
 
 def rand_case(rng, force=None, num_dt=None):
+    allow_big = num_dt is None
     num_dt = num_dt or NUM_DT
     n = rng.choice([1, 2, 2, 3, 3, 3, 4, 4, 4])
     ncols = [rng.choice([1, 2, 2, 3, 3]) for _ in range(n)]
@@ -772,6 +791,7 @@ def rand_case(rng, force=None, num_dt=None):
         ops.append(o)
     # kinds of the columns: columns compared with each other get the same family (union-find)
     parent = {}
+    direct = []
 
     def find(x):
         parent.setdefault(x, x)
@@ -787,6 +807,7 @@ def rand_case(rng, force=None, num_dt=None):
         prs = list(zip(ca, cb)) if len(ca) == len(cb) else [(x, y) for x in ca for y in cb]
         for x, y in prs:
             parent[find((a, x))] = find((b, y))
+            direct.append(((a, x), (b, y)))
     fam = {}
     datasets = []
     for d in range(n):
@@ -802,6 +823,10 @@ def rand_case(rng, force=None, num_dt=None):
                 pool = FLT_VALS if dt[0] == 'f' else UINT_VALS if dt[0] == 'u' else INT_VALS
                 if dt not in ('i1', 'u1') and rng.random() < 0.3:
                     pool = pool + ([256.0, 65536.0] if dt[0] == 'f' else [256, 257, 65536] if dt not in ('i2', 'u2') else [256, 257])
+                if allow_big and dt == 'i8' and rng.random() < 0.3:
+                    pool = rng.sample(pool, 2) + BIG_INTS          # identifiers that collide once converted to float64
+                if allow_big and dt == 'f8' and rng.random() < 0.15:
+                    pool = pool + [float(2 ** 53), float(2 ** 60), 2.0 ** 53 + 2]
             else:
                 dt = rng.choice(STR_DT)
                 pool = STR_VALS
@@ -810,6 +835,7 @@ def rand_case(rng, force=None, num_dt=None):
         u = list(range(size))
         rng.shuffle(u)
         datasets.append({'shape': shape, 'cols': cols, 'u': u})
+    sanitize(datasets, direct)
     # queries
     queries = []
     sizes = [int(np.prod(ds['shape'])) for ds in datasets]
@@ -848,6 +874,100 @@ def stream_random(R):
     R.stream('random', systems=len(cases), queries=nq, exhaustive=False,
              bound='1..4 datasets of 1..6 elements (1-d and 2-d), 1..3 key columns of dtypes %s / %s, joins in chains, cycles, stars, complete and random graphs '
                    '(self-joins, re-joins, JoinLink add/remove, rejected shapes), selections evaluable on 0..3 datasets, every dataset asked, with and without a view' % (NUM_DT, STR_DT))
+
+
+def large_case(rng):
+    """two datasets of 20..200 rows, keys drawn with many repetitions from overlapping pools of 15..60 distinct keys
+    that are not small dense integers; most rows selected"""
+    kind = rng.choice(['str', 'flt', 'sparse', 'big', 'big'])
+    shape = rng.choice(['11', '11', 'nn', '1n', '1n', 'n1'])
+    nu = rng.randrange(24, 64)
+    if kind == 'str':
+        U = ['s%02d' % i for i in range(nu)]
+    elif kind == 'flt':
+        U = [i + 0.5 for i in range(nu // 2)] + [i * 1e10 + 0.25 for i in range(nu - nu // 2)]
+    elif kind == 'sparse':
+        U = [i * 10 ** 9 + 7 for i in range(nu)]
+    else:
+        U = [2 ** 53 + i for i in range(nu // 2)] + [2 ** 60 + i for i in range(nu - nu // 2)]
+
+    def dtype_for(side):
+        if kind == 'str':
+            return rng.choice(['U3', 'U4', 'U6'])
+        if kind == 'flt':
+            return 'f8'
+        if kind == 'sparse':
+            return rng.choice(['i8', 'i8', 'f8'])
+        return 'i8'
+
+    def second(n):
+        """a second key column of another dtype, few distinct values"""
+        k = rng.choice(['f8', 'i4', 'i8', 'str'] if kind != 'str' else ['str', 'str', 'i4'])
+        if k == 'str':
+            return {'dtype': rng.choice(['U1', 'U2', 'U4']), 'values': [rng.choice(['a', 'b', 'ab']) for _ in range(n)]}
+        if k == 'f8':
+            return {'dtype': 'f8', 'values': [rng.choice([0.5, 5.0, -0.0, 0.0, 7.25]) for _ in range(n)]}
+        return {'dtype': k, 'values': [rng.choice([0, 1, 5]) for _ in range(n)]}
+
+    nl, nr = rng.randrange(20, 201), rng.randrange(20, 201)
+    pl = rng.sample(U, rng.randrange(12, max(13, int(0.7 * nu))))
+    pr = rng.sample(U, rng.randrange(15, max(16, int(0.8 * nu))))
+    lcol = {'dtype': dtype_for(0), 'values': [rng.choice(pl) for _ in range(nl)]}
+    rcol = {'dtype': dtype_for(1), 'values': [rng.choice(pr) for _ in range(nr)]}
+    L = {'shape': [nl], 'cols': [lcol], 'u': rng.sample(range(nl), nl)}
+    Rt = {'shape': [nr], 'cols': [rcol], 'u': rng.sample(range(nr), nr)}
+    if shape == '11':
+        c1, c2 = [0], [0]
+        direct = [((0, 0), (1, 0))]
+    elif shape == 'nn':
+        s1, s2 = second(nl), second(nr)
+        if (s1['dtype'][0] == 'U') != (s2['dtype'][0] == 'U'):
+            s2 = dict(s1, values=[rng.choice(s1['values']) for _ in range(nr)])
+        L['cols'].append(s1)
+        Rt['cols'].append(s2)
+        c1, c2 = [0, 1], [0, 1]
+        direct = [((0, 0), (1, 0)), ((0, 1), (1, 1))]
+    else:
+        # the side with several key columns: the second one has another dtype (a float column next to 64-bit identifiers,
+        # an int32 next to a float, <U2 next to <U6) and holds some of the keys too
+        many, one = (Rt, L) if shape == '1n' else (L, Rt)
+        nm = many['shape'][0]
+        if kind == 'str':
+            extra = {'dtype': rng.choice(['U2', 'U5']), 'values': [rng.choice(U + ['zz']) for _ in range(nm)]}
+        elif kind == 'big':
+            extra = {'dtype': 'f8', 'values': [rng.choice([float('nan')] * 0 + [5.0, 0.5, -1.0, float(2 ** 53), 123456789.0]) for _ in range(nm)]}
+        elif kind == 'flt':
+            extra = {'dtype': rng.choice(['i4', 'i8']), 'values': [rng.choice([0, 1, 5, 7]) for _ in range(nm)]}
+        else:
+            extra = {'dtype': rng.choice(['f8', 'i4']), 'values': [rng.choice([7, 5, 1000000007]) for _ in range(nm)]}
+        many['cols'].append(extra)
+        c1, c2 = ([0], [0, 1]) if shape == '1n' else ([0, 1], [0])
+        direct = [((0, x), (1, y)) for x in c1 for y in c2]
+    datasets = [L, Rt]
+    sanitize(datasets, direct)
+    queries = []
+    for d, e, ne in ((0, 1, nr), (1, 0, nl)):
+        if rng.random() < 0.5:
+            sel = ['ineq', e, rng.randrange(-1, ne // 3)]
+        else:
+            p = rng.choice([0.5, 0.8, 0.95])
+            sel = ['table', {str(e): [int(rng.random() < p) for _ in range(ne)]}]
+        queries.append({'d': d, 'view': None, 'sel': sel})
+        if rng.random() < 0.3:
+            queries.append({'d': d, 'view': rand_view(rng, datasets[d]['shape']), 'sel': sel})
+    return {'datasets': datasets, 'ops': [['join', 0, 1, c1, c2, rng.choice([0, 1])]], 'queries': queries}
+
+
+def stream_large(R):
+    n = R.pick(220, 1500)
+    cases = [large_case(R.subrng('large', i)) for i in range(n)]
+    nq = 0
+    for i in range(0, len(cases), 40):
+        nq += run_cases(R, cases[i:i + 40], 'large')
+    R.sample({'stream': 'large', 'case': 'two datasets of 20..200 elements, keys s00..s63 / i+0.5 / i*1e9+7 / 2**53+i, 2**60+i drawn with repetitions'})
+    R.stream('large', systems=len(cases), queries=nq, exhaustive=False,
+             bound='two datasets of 20..200 elements; keys drawn with repetitions from overlapping pools of 12..50 distinct strings, floats, sparse int64 '
+                   'or near-colliding int64 (2**53+i, 2**60+i); shapes 1-1, n-n, 1-n, n-1 with a second key column of another dtype; 50-95% of the rows selected; both directions')
 
 
 def stream_other_dtypes(R):
@@ -956,6 +1076,7 @@ def run(R):
     stream_corpus(R)
     stream_concat(R)
     stream_pairs(R)
+    stream_large(R)
     stream_random(R)
     stream_other_dtypes(R)
 
